@@ -1,6 +1,6 @@
 //! PE Linker/Loader
 
-use crate::architecture::{Amd64, Mips, X86};
+use crate::architecture::{Amd64, Mipsel, X86};
 use crate::loader::*;
 use crate::memory::backing::Memory;
 use crate::memory::MemoryPermissions;
@@ -27,7 +27,8 @@ impl Pe {
             } else if pe.header.coff_header.machine == goblin::pe::header::COFF_MACHINE_X86_64 {
                 Box::new(Amd64::new())
             } else if pe.header.coff_header.machine == goblin::pe::header::COFF_MACHINE_R4000 {
-                Box::new(Mips::new())
+                // IMAGE_FILE_MACHINE_R4000 is "MIPS little endian" (PE/COFF specification)
+                Box::new(Mipsel::new())
             } else {
                 return Err(Error::UnsupportedArchitecture);
             }
